@@ -18,6 +18,23 @@ CLAIMED = {
              "Utils.murmur2; the T-diff harness and driver; random.choice as an index oracle.",
         technique="Lean 4 theorem (fun_induction over 4-byte words, BitVec bridging lemmas) + differential correspondence check",
     ),
+    "C14": dict(
+        text="Lean 4 proofs for every input (any number of members, topics, partitions): range assignor — the slices "
+             "handed to the sorted subscribers of a topic concatenate to exactly its sorted partition list (exact "
+             "cover with multiplicity, unique owner, nothing else, per-topic loads within one); round-robin — the "
+             "member-cycling loop terminates within |members| steps per partition for every input, hands out every "
+             "partition of every subscribed topic exactly once to a subscribed member, and with identical "
+             "subscriptions the k-th partition goes to member k mod m so loads are within one. Both models are tied to "
+             "/repo by byte-identical differential comparison on a slice (quick) or all (thorough) of the property's "
+             "exhaustive space plus random inputs. PARTIAL for the sticky assignor: it is not modelled; the Lean "
+             "executable statement (cover, nothing-else, KIP-54 balance; soundness lemmas proved) is evaluated on "
+             "the library's output for every explored input.",
+        design="3/C14",
+        note="trusted: Lean kernel (+propext, Classical.choice, Quot.sound); T-diff harness, stub ClusterMetadata, "
+             "zero-padded names; sticky assignor validity/balance only validated per explored input, not proved.",
+        technique="Lean 4 theorems (list tiling, induction over the round-robin loop) + differential correspondence check; "
+                  "sticky: Lean-defined checker evaluated on implementation output",
+    ),
 }
 
 NOT_YET = {}
